@@ -51,7 +51,12 @@ func main() {
 	pkgs := flag.Bool("pkgs", false, "arguments are go/packages patterns")
 	dir := flag.String("dir", ".", "directory for -pkgs")
 	tests := flag.Bool("tests", false, "include test variants for -pkgs")
+	kinds := flag.Bool("kinds", false, "list the types of package go/ir that implement ir.Instruction (K <name> <value|effect>) and exit")
 	flag.Parse()
+	if *kinds {
+		listKinds(*dir)
+		return
+	}
 
 	w := bufio.NewWriterSize(os.Stdout, 1<<20)
 	defer w.Flush()
@@ -293,5 +298,43 @@ func dumpPkgs(d *c02ir.Dumper, dir string, patterns []string, modes []string, te
 				return pidFor(fn, pidOf)
 			})
 		}()
+	}
+}
+
+// listKinds prints every named struct type of package go/ir (of the tree under test) whose
+// pointer type implements ir.Instruction, and whether it also implements ir.Value.
+func listKinds(dir string) {
+	cfg := &packages.Config{Dir: dir, Mode: packages.NeedTypes | packages.NeedName | packages.NeedImports | packages.NeedDeps}
+	ps, err := packages.Load(cfg, "honnef.co/go/tools/go/ir")
+	if err != nil || len(ps) != 1 || ps[0].Types == nil || len(ps[0].Errors) > 0 {
+		fmt.Fprintln(os.Stderr, "cannot load honnef.co/go/tools/go/ir:", err)
+		os.Exit(3)
+	}
+	scope := ps[0].Types.Scope()
+	iface := func(name string) *types.Interface {
+		o := scope.Lookup(name)
+		if o == nil {
+			fmt.Fprintln(os.Stderr, "go/ir has no type", name)
+			os.Exit(3)
+		}
+		return o.Type().Underlying().(*types.Interface)
+	}
+	instr, value := iface("Instruction"), iface("Value")
+	for _, name := range scope.Names() {
+		tn, ok := scope.Lookup(name).(*types.TypeName)
+		if !ok {
+			continue
+		}
+		if _, ok := tn.Type().Underlying().(*types.Struct); !ok {
+			continue
+		}
+		p := types.NewPointer(tn.Type())
+		if types.Implements(p, instr) {
+			k := "effect"
+			if types.Implements(p, value) {
+				k = "value"
+			}
+			fmt.Printf("K %s %s\n", name, k)
+		}
 	}
 }
